@@ -12,7 +12,90 @@ from .facts import strip_tmpl, loc_str, strip
 NS = 'embedded_pairing::bls12_381::'
 
 
+class NeedChoice(Exception):
+    """a test `word == 0` on a scalar word whose zero-ness this path has not fixed yet"""
+    def __init__(self, idx):
+        self.idx = idx
+
+
 class GroupMachine(expdom.ExpMachine):
+    """Besides bit(i), the scalar may be read a word at a time: `k.words[w]` is a symbolic word, `(word >> i) & 1` with concrete i
+    is bit w*wordbits + i, and `word == 0` / `word != 0` is decided by the path's assumption about that word (zero_words; the rule
+    enumerates both outcomes).  A word assumed zero reads as the integer 0."""
+    zero_words = None
+    scalar_oid = None
+    word_bits = 0
+
+    def _word(self, x, fr):
+        if not (isinstance(x, dict) and x.get('k') == 'index'):
+            return None
+        try:
+            lv = self.lvalue(x, fr)
+        except gvn.Unsupported:
+            return None
+        if lv[0] != self.scalar_oid or len(lv[1]) != 2 or lv[1][0] != 'words':
+            return None
+        size = (x.get('t') or {}).get('size')
+        if not size:
+            raise gvn.Unsupported('scalar word of unknown width at %s' % loc_str(x))
+        idx = int(lv[1][1][1:-1])
+        self.word_bits = 8 * size
+        if self.zero_words.get(idx) is True:
+            return 0
+        return ('word', idx, 8 * size)
+
+    def int_value(self, e, fr):
+        x = e
+        while isinstance(x, dict) and x.get('k') in ('load', 'paren'):
+            x = x['e']
+        w = self._word(x, fr)
+        if w is not None:
+            return w
+        if isinstance(x, dict) and x.get('k') == 'cast':
+            v = self.int_value(x['e'], fr)
+            if isinstance(v, tuple):
+                t = x.get('t') or {}
+                if v[0] == 'word' and t.get('k') == 'int' and 8 * (t.get('size') or 0) >= v[2]:
+                    return v
+                if v[0] == 'bit' and t.get('k') in ('int', 'bool'):
+                    return v
+                raise gvn.Unsupported('conversion of scalar data at %s' % loc_str(x))
+        if isinstance(x, dict) and x.get('k') == 'bin' and x.get('op') in ('==', '!=', '>>', '&'):
+            a, b = self.int_value(x['lhs'], fr), self.int_value(x['rhs'], fr)
+            op = x['op']
+            if isinstance(a, int) and isinstance(b, tuple) and op != '>>':
+                a, b = b, a
+            if isinstance(a, tuple) and a[0] in ('word', 'shr', 'bit') and isinstance(b, int) and not isinstance(b, bool):
+                if a[0] == 'word' and op in ('==', '!=') and b == 0:
+                    if a[1] not in self.zero_words:
+                        raise NeedChoice(a[1])
+                    return int(op == '!=')          # a word assumed zero reads as 0 and never reaches here
+                if a[0] == 'word' and op == '>>' and 0 <= b < a[2]:
+                    return ('shr', a[1], a[2], b)
+                if a[0] == 'word' and op == '&' and b == 1:
+                    return ('bit', 'k#%d' % (a[1] * a[2]))
+                if a[0] == 'shr' and op == '&' and b == 1:
+                    return ('bit', 'k#%d' % (a[1] * a[2] + a[3]))
+                if a[0] == 'bit' and ((op == '!=' and b == 0) or (op == '==' and b == 1)):
+                    return a
+                raise gvn.Unsupported('operation %s on scalar data at %s' % (op, loc_str(x)))
+            if isinstance(a, tuple) or isinstance(b, tuple):
+                raise gvn.Unsupported('operation %s on scalar data at %s' % (op, loc_str(x)))
+        v = gvn.Machine.int_value(self, e, fr)
+        return v
+
+    def cond_value(self, c, fr):
+        v = super().cond_value(c, fr)
+        if v is None:
+            e = strip(c)
+            if isinstance(e, dict) and e.get('k') in ('bin', 'cast', 'ref', 'load', 'paren'):
+                w = self.int_value(c, fr)
+                if isinstance(w, tuple):
+                    if w[0] in ('bit', 'flag'):
+                        return w
+                    raise gvn.Unsupported('condition on scalar data at %s is not a single bit' % loc_str(c))
+        return v
+
     def global_leaf(self, gid, path):
         g = self.prog.globals.get(gid)
         if g is not None and gid.endswith('::zero') and 'Projective' in (g['t'].get('rec') or g['t'].get('s') or ''):
@@ -60,30 +143,55 @@ def rule_doubleadd(ctx, cfg, prog, rule='R-POLY/doubleadd'):
             gvn.EXTRA_LEAVES.clear()
             gvn.EXTRA_LEAVES.update({f.get('parent'), base_rec})
             bad = []
+            paths = 0
+            work = [{}]
             try:
-                M = GroupMachine(prog)
-                M.obj_names = {}
-                base = (M.new_element('g'), ())
-                k = M.new_obj()
-                M.obj_names[k] = 'k'
-                out = (M.new_obj(), ())
-                M.run_fn(f, out, [base, (k, ()), None], {2: hb})
-                E = M.read_leaf(out[0], out[1])
-            except expdom.NotEquivalent as ex:
-                bad.append(str(ex))
-                E = expdom.Lin(0)
+                while work and not bad:
+                    zw = work.pop()
+                    paths += 1
+                    if paths > 4096:
+                        raise gvn.Unsupported('more than 4096 zero-word cases')
+                    try:
+                        M = GroupMachine(prog)
+                        M.obj_names = {}
+                        M.zero_words = zw
+                        base = (M.new_element('g'), ())
+                        k = M.new_obj()
+                        M.obj_names[k] = 'k'
+                        M.scalar_oid = k
+                        out = (M.new_obj(), ())
+                        M.run_fn(f, out, [base, (k, ()), None], {2: hb})
+                        E = M.read_leaf(out[0], out[1])
+                    except NeedChoice as nc:
+                        paths -= 1
+                        work.append({**zw, nc.idx: True})
+                        work.append({**zw, nc.idx: False})
+                        continue
+                    except expdom.NotEquivalent as ex:
+                        bad.append(str(ex))
+                        continue
+                    # on this path the words assumed zero contribute nothing; a linear form that agrees with the expected one on
+                    # every assignment where an assumed-non-zero word is non-zero agrees identically, so identity is demanded
+                    wbits = {i for i in range(hb + 1)}
+                    zeroed = {w_ for w_, z in zw.items() if z}
+                    want = {}
+                    for i in range(hb + 1):
+                        if zeroed and any(M.word_bits and i // M.word_bits == w_ for w_ in zeroed):
+                            continue
+                        want['bit:k#%d*g' % i] = 1 << i
+                    case = ('' if not zw else ' with word(s) %s zero%s' % (sorted(zeroed), ', %s non-zero' % sorted(set(zw) - zeroed) if set(zw) - zeroed else ''))
+                    if E.c:
+                        bad.append('constant term' + case)
+                    for kk in sorted(set(want) | set(E.t)):
+                        if want.get(kk) != E.t.get(kk):
+                            bad.append('%s has weight %s, expected %s%s' % (kk, E.t.get(kk), want.get(kk), case))
             except gvn.Unsupported as ex:
                 raise bm.AnalysisBroken('%s cannot model %s: %s' % (rule, f['qn'][:120], ex))
             finally:
                 gvn.EXTRA_LEAVES.clear()
             want = {'bit:k#%d*g' % i: 1 << i for i in range(hb + 1)}
-            if E.c:
-                bad.append('constant term')
-            for kk in sorted(set(want) | set(E.t)):
-                if want.get(kk) != E.t.get(kk):
-                    bad.append('%s has weight %s, expected %s' % (kk, E.t.get(kk), want.get(kk)))
             n += 1
             ctx.ob(rule, not bad, 'doubleadd|%s|%s|hb=%d' % ((f.get('parent') or '')[-12:], (base_rec or '')[len(NS):len(NS) + 14], hb), loc_str(f),
                    '%s(base, k, %d) is not sum_i 2^i bit_i(k) base over bits 0..%d: %s' % (strip_tmpl(f['qn']), hb, hb, '; '.join(bad[:3])), cfg=cfg,
-                   sample=dict(config=cfg, routine=f['qn'][:110], highest_bit=hb, bit_weights_checked=len(want)))
+                   sample=dict(config=cfg, routine=f['qn'][:110], highest_bit=hb, bit_weights_checked=len(want), zero_word_cases=paths))
     return n
